@@ -34,6 +34,7 @@ func checkC17(c *Ctx) {
 	c.rule("C17.R2", "the invoked handler is the registration table's entry under the command name, invoked only when found; an unknown name yields a non-nil error", 3)
 	c.rule("C17.R3", "arguments: one ascending pass over all elements, in order (shape shared with C02.R4)", 3)
 	c.rule("C17.R4", "word classification: true/false by exact comparison, numbers only under a decimal-literal guard (probe set), everything else verbatim; empty words skipped", 5)
+	c.rule("C17.R6", "registration reaches the table: every public command-registration call that returns without error has stored the (converted) command once in the dispatch table under the given name; nothing is stored when it fails", 2)
 	c.rule("C17.R5", "re-arrangement keeps every element: accumulate text, flush before each expression and after the last element, reset after flush", 3)
 	if !m.ok(c, "C17") {
 		return
@@ -77,6 +78,8 @@ func checkC17(c *Ctx) {
 	c17R4(c)
 	// ----- R5
 	c17R5(c)
+	// ----- R6
+	checkRegistration(c, "C17.R6", "command", 2)
 }
 
 
